@@ -23,6 +23,7 @@ type Obl struct {
 	Props  []string
 	Bound  int // >0 when generated under bounded unrolling
 	nfacts int
+	anc    map[int]bool
 	guard  Term
 	goal   Term
 	Pos    string
@@ -106,6 +107,8 @@ type Unit struct {
 	sentinels      []sentinel
 	usedContracts  map[string]bool
 	nRequiresFacts int
+	curAnc         map[int]bool
+	nodeAnc        map[int]map[int]bool
 	freshErrs      []Term
 }
 
@@ -375,7 +378,7 @@ func (u *Unit) oblige(st *State, kind, label, site string, goal Term, pos token.
 	if n := u.siteN[base]; n > 1 {
 		name = fmt.Sprintf("%s~%d", base, n)
 	}
-	o := &Obl{Name: name, Kind: kind, Label: label, Func: u.top.String(), nfacts: len(u.s.facts), guard: st.reach, goal: goal, script: u.s, Bound: u.bound}
+	o := &Obl{Name: name, Kind: kind, Label: label, Func: u.top.String(), nfacts: len(u.s.facts), guard: st.reach, goal: goal, script: u.s, Bound: u.bound, anc: u.curAnc}
 	if pos.IsValid() {
 		p := u.eng.fset.Position(pos)
 		o.Pos = fmt.Sprintf("%s:%d", strings.TrimPrefix(p.Filename, "/repo/"), p.Line)
@@ -387,6 +390,9 @@ func (u *Unit) oblige(st *State, kind, label, site string, goal Term, pos token.
 }
 
 func (u *Unit) safety(st *State, what string, goal Term, pos token.Pos) {
+	if u.s.specMode > 0 {
+		return
+	}
 	if !u.eng.safety {
 		u.s.assume(implies(st.reach, goal))
 		return
@@ -660,6 +666,9 @@ func (u *Unit) merge(b *ssa.BasicBlock, ins []incoming, fn *ssa.Function) *State
 		for i := len(ts) - 2; i >= 0; i-- {
 			t = ite(conds[i], ts[i], t)
 		}
+		if u.s.specMode > 0 {
+			return t
+		}
 		c := u.s.fresh(name, srt)
 		u.s.assume(eq(c, t))
 		return c
@@ -746,6 +755,7 @@ type retInfo struct {
 	vals []Term
 	pos  token.Pos
 	blk  int
+	node int
 }
 
 // execBody runs fn from state st0 with bound parameters; returns merged exit.
@@ -784,7 +794,29 @@ func (u *Unit) execBody(fn *ssa.Function, st0 *State, top bool) (*State, []Term)
 	}
 	g := u.buildGraph(fn, loops)
 	var rets []retInfo
+	if top {
+		// ancestor sets for fact slicing
+		u.nodeAnc = map[int]map[int]bool{}
+		idx := map[*node]int{}
+		for i, n := range g.order {
+			idx[n] = i
+		}
+		for i, n := range g.order {
+			a := map[int]bool{i: true}
+			for _, e := range n.preds {
+				for k := range u.nodeAnc[idx[e.from]] {
+					a[k] = true
+				}
+			}
+			u.nodeAnc[i] = a
+			n.seen = i
+		}
+	}
 	for _, n := range g.order {
+		if top {
+			u.s.curTag = n.seen
+			u.curAnc = u.nodeAnc[n.seen]
+		}
 		var ins []incoming
 		if n == g.entry && len(n.preds) == 0 {
 			ins = []incoming{{st: st0, cond: st0.reach}}
@@ -869,6 +901,9 @@ func (u *Unit) execBody(fn *ssa.Function, st0 *State, top bool) (*State, []Term)
 		for i := len(ts) - 2; i >= 0; i-- {
 			t = ite(conds[i], ts[i], t)
 		}
+		if u.s.specMode > 0 {
+			return t
+		}
 		c := u.s.fresh(name, srt)
 		u.s.assume(eq(c, t))
 		return c
@@ -899,6 +934,13 @@ func (u *Unit) execBody(fn *ssa.Function, st0 *State, top bool) (*State, []Term)
 
 func (u *Unit) cutHeader(fn *ssa.Function, n *node, st *State, top bool) *State {
 	l := n.cut
+	// loop ghosts start at their initial value
+	if l.spec != nil {
+		for _, g := range l.spec.Ghosts {
+			st = st.clone()
+			u.setHeap(st, loopGhostHeap(fn, l, g.Name), SInt, u.evalSpecInt(g.Init, st, fn, l))
+		}
+	}
 	// inv.init
 	if l.spec != nil {
 		for _, inv := range l.spec.Invariants {
@@ -918,6 +960,11 @@ func (u *Unit) cutHeader(fn *ssa.Function, n *node, st *State, top bool) *State 
 		out.regs[p] = c
 	}
 	oldAlloc := u.alloc(st)
+	if l.spec != nil {
+		for _, g := range l.spec.Ghosts {
+			out.heaps[loopGhostHeap(fn, l, g.Name)] = u.s.fresh("lg_"+g.Name, SInt)
+		}
+	}
 	if !u.pass1 {
 		mods := u.loopMods[loopKey(fn, l.ordinal)]
 		var ms []string
@@ -986,6 +1033,18 @@ func (u *Unit) keepEdge(fn *ssa.Function, n *node, e *edge, top bool) {
 	}
 	for p, v := range vals {
 		tmp.regs[p] = v
+	}
+	// ghost counters step (evaluated with the pre-step phi values)
+	{
+		pre := n.out.clone()
+		pre.reach = c
+		var steps []Term
+		for _, g := range l.spec.Ghosts {
+			steps = append(steps, u.evalSpecInt(g.Step, pre, fn, l))
+		}
+		for i, g := range l.spec.Ghosts {
+			tmp.heaps[loopGhostHeap(fn, l, g.Name)] = u.s.define("lgstep", SInt, steps[i])
+		}
 	}
 	for _, inv := range l.spec.Invariants {
 		goal := u.evalSpecBool(inv.Expr, tmp, fn, l)
